@@ -401,6 +401,8 @@ def partition_reads(ck, an, name="S5.partition-reads-do-not-insert"):
     for f in an.functions():
         if f.short == "Transmitter._create_partitions":
             continue
+        if expanded_helper(an, f):
+            continue          # analysed where it was expanded, with the key it is really given
         fa = an.fa(f)
         for node in walk_function(f.node):
             if isinstance(node, ast.Subscript) and isinstance(node.value, ast.Attribute) and node.value.attr in ("_partition_latent", "_partition_nonlatent"):
